@@ -91,6 +91,8 @@ inductive ArgsOp where
   | str
   /-- `args.extend(args[lo:hi])`: extend by a `TexArgs` object, here the list's own slice. -/
   | extendSlice (lo hi : Option Int)
+  /-- `args.extend(args)`: extend by the list itself. -/
+  | extendSelf
   deriving Repr, Inhabited
 
 inductive ArgsOut where
@@ -249,8 +251,9 @@ def insert (st : ArgsSt) (i : Int) (a : ArgIn) : ArgsSt × ArgsOut :=
 /-- `append(arg)` is `self.insert(len(self), arg)`. -/
 def append (st : ArgsSt) (a : ArgIn) : ArgsSt × ArgsOut := insert st st.lst.length a
 
-/-- `extend(args)`: `for arg in args: self.append(arg)` – stops at the first exception,
-keeping what was appended before. -/
+/-- `extend(args)`: `for arg in list(args): self.append(arg)` – a snapshot of the argument is
+iterated (since the repair "TexArgs.extend(itself) never terminated"); stops at the first
+exception, keeping what was appended before. -/
 def extend (st : ArgsSt) : List ArgIn → ArgsSt × ArgsOut
   | [] => (st, .none)
   | a :: r =>
@@ -314,12 +317,16 @@ def slice (st : ArgsSt) (lo hi : Option Int) : ArgsSt × ArgsOut :=
 
 /-- `args.extend(args[lo:hi])`: the slice is a new `TexArgs`; `extend` iterates over it as
 over any list, i.e. over its list elements in list order (`.all` of the source plays no part),
-and appends each – the same objects. (`args.extend(args)` itself, without the copy, does not
-terminate in the implementation: the loop runs over the list it is growing.) -/
+and appends each – the same objects. -/
 def extendSlice (st : ArgsSt) (lo hi : Option Int) : ArgsSt × ArgsOut :=
   match construct ((pySlice st.lst lo hi).map .grp) st.next with
   | (src, .none) => extend st (src.lst.map .grp)
   | (_, out) => (st, out)
+
+/-- `args.extend(args)`: the snapshot `list(args)` is the list's elements at the time of the
+call; each is appended – the list doubles, as a Python list does. (Before the repair the loop
+ran over the growing list itself and never ended.) -/
+def extendSelf (st : ArgsSt) : ArgsSt × ArgsOut := extend st (st.lst.map .grp)
 
 /-- `str(args)`: `''.join(map(str, self))`. -/
 def str (st : ArgsSt) : ArgsSt × ArgsOut := (st, .string (serL (st.lst.map Obj.e)))
@@ -336,6 +343,7 @@ def step (st : ArgsSt) : ArgsOp → ArgsSt × ArgsOut
   | .slice lo hi => slice st lo hi
   | .str => str st
   | .extendSlice lo hi => extendSlice st lo hi
+  | .extendSelf => extendSelf st
 
 /-- Run a history from a state; outputs in order. A Python caller that catches the
 exceptions sees exactly this. -/
